@@ -291,25 +291,36 @@ def r3_parse(ctx):
         raise AnalysisError("parse_check_statistics missing")
     ctx.touched(f)
     stats_param = f.positional[0]
-    loops = [s for s in function_stmts(f) if isinstance(s, ast.For) and isinstance(s.iter, ast.Call) and callee_last(s.iter) == "items"
-             and txt(s.iter.func.value) == stats_param]
+    # the iteration over the statistics may be a loop with appends or a comprehension; the construction may sit in a helper
+    iters = []
+    for s_ in ast.walk(f.node):
+        if isinstance(s_, ast.For) and isinstance(s_.iter, ast.Call) and callee_last(s_.iter) == "items" and txt(s_.iter.func.value) == stats_param:
+            iters.append((s_.target, s_, "loop"))
+        elif isinstance(s_, (ast.ListComp, ast.GeneratorExp)):
+            for g in s_.generators:
+                if isinstance(g.iter, ast.Call) and callee_last(g.iter) == "items" and txt(g.iter.func.value) == stats_param:
+                    iters.append((g.target, s_, "comprehension"))
     ok = False
     appended = False
-    for l in loops:
-        key = l.target.elts[0].id if isinstance(l.target, ast.Tuple) and isinstance(l.target.elts[0], ast.Name) else None
+    for target, body, kind in iters:
+        key = target.elts[0].id if isinstance(target, ast.Tuple) and isinstance(target.elts[0], ast.Name) else None
         ctor = None
-        for s in ast.walk(l):
+        for s in ast.walk(body):
             if isinstance(s, ast.Call) and callee_last(s) == "getattr" and len(s.args) >= 2 and txt(s.args[0]) == "Check" and txt(s.args[1]) == key:
                 ok = True
-                p = s
                 from ..index import parent
                 st = parent(s)
                 if isinstance(st, ast.Assign) and isinstance(st.targets[0], ast.Name):
                     ctor = st.targets[0].id
-        for c in calls_in(l):
+        if kind == "comprehension":
+            # one element per statistics entry unless the comprehension filters
+            appended = appended or not any(g.ifs for g in body.generators)
+            continue
+        for c in calls_in(body):
             if callee_last(c) == "append" and c.args:
                 a = c.args[0]
-                if (isinstance(a, ast.Call) and ((isinstance(a.func, ast.Name) and a.func.id == ctor) or callee_last(a) == "getattr")) or isinstance(a, ast.Name):
+                if (isinstance(a, ast.Call) and ((isinstance(a.func, ast.Name) and a.func.id == ctor) or callee_last(a) == "getattr"
+                                                or any(isinstance(x, ast.Call) and callee_last(x) == "getattr" for x in ast.walk(a)))) or isinstance(a, ast.Name):
                     appended = True
     ctx.ob("R3", f, "statistics key k is turned into Check.<k>", ok, "getattr(Check, check_name)" if ok else "key is not mapped to the constructor of the same name")
     ctx.ob("R3", f, "every statistics entry yields one check", ok and appended, "constructed and appended" if ok and appended else "entries are dropped")
